@@ -52,15 +52,32 @@ package head
 // is a CID link is bindnode/dag-json behaviour (ASSUMED).
 //@ func Decode
 //@   property C03
+// the decoder is handed the reader given - all of it (a head is as long as its key and signature make it)
+//@   at call dagjson.Decode: assert arg1 == SignedHeadReader
 //@   at call NewBuilder: after assume result != nil
 //@   at call Build: after assume result != nil
 //@   ensures result1 == nil ==> result0 != nil
 //@   ensures result1 != nil ==> result0 == nil
 //@   ensures-assumed result1 == nil ==> result0.Head != nil && typeis(result0.Head, "cidlink.Link")
 
+// The head returned is the value the node binds to, as it is: nothing is rewritten on the way.
 //@ func UnwrapSignedHead
 //@   property C03
 //@   requires node != nil
+//@   readonly
+//@   ghost uw := zero("any")
+//@   at call Unwrap: after ghost uw := result
+//@   ensures-local result1 == nil ==> typeis(uw, "*head.SignedHead") && payload(uw) == result0
 //@   at call NewBuilder: after assume result != nil
 //@   ensures result1 == nil ==> result0 != nil
 //@   ensures result1 != nil ==> result0 == nil
+
+// What a publisher serves (C03): the encoding is that of the head itself - all four fields as signed (the
+// topic included, whatever its value: the signature covers it).
+//@ func (SignedHead).Encode
+//@   property C03
+//@   at call ToNode: assert arg0 == old(s)
+//@   ghost gn := zero("ipld.Node")
+//@   at call ToNode: after ghost gn := result0
+//@   at call dagjson.Encode: assert arg0 == gn
+//@   ensures-local result1 == nil ==> count("call:ToNode") == 1 && count("call:dagjson.Encode") == 1
